@@ -171,6 +171,7 @@ func runC15(c *Ctx) {
 	c.Res.Rule = "every addressable pointer (object kinds reached through the vocabulary and their plain members, incl. ~0/~1 tokens, array indices, status codes, default, extensions, unknown schema keywords) of generated normal-form documents: jsonpointer evaluation on the typed value vs the JSON encoding; non-trivial = pointer with at least one token; distinct by (document, pointer)"
 	o := gen.DefaultOptions()
 	o.MemberP = 0.3
+	o.NullExt = true // a null-valued extension is a member like any other: present in the JSON form, so reachable on the typed document
 	g := gen.New(c.Rng, v, o)
 	n := c.N(400, 8000)
 	for i := 0; i < n; i++ {
